@@ -59,6 +59,60 @@ func (o *observer) ApplyConfig(c config.Config) {
 	o.last = c.GetValue("k1") + "|" + c.GetValue("k2")
 }
 
+// observers: every registration history of length <= 3 over two names and three observer objects
+// (registering again under a name that is taken is what a re-created client does), then one edit and
+// one reload: the observer last registered under each name must have been notified of that change.
+func observers(c *evid.Ctx) {
+	e := newEnv(c)
+	if e == nil {
+		return
+	}
+	defer os.RemoveAll(e.dir)
+	type reg struct {
+		name string
+		obj  int
+	}
+	alphabet := []reg{{"client", 0}, {"client", 1}, {"sender", 2}, {"client", 2}}
+	var rec func(h []reg)
+	rec = func(h []reg) {
+		if len(h) > 0 {
+			c.Count("observer_histories", 1)
+			c.Count("states", 1)
+			vtime.SetVirtual(t0)
+			mt := t0.Add(-time.Hour)
+			e.write("k1=init\n", mt)
+			objs := []*observer{{}, {}, {}}
+			co := config.NewConfigObserver()
+			last := map[string]int{}
+			var desc []string
+			for _, r := range h {
+				co.Add(r.name, objs[r.obj])
+				last[r.name] = r.obj
+				desc = append(desc, fmt.Sprintf("Add(%q, observer%d)", r.name, r.obj))
+			}
+			fc := conffile.VerifNew(conffile.WithHomePath(e.dir), conffile.WithConfigObserver(co))
+			before := []int{objs[0].calls, objs[1].calls, objs[2].calls}
+			e.write("k1=changed\n", mt.Add(5*time.Second))
+			vtime.Advance(3100 * time.Millisecond)
+			fc.VerifReload()
+			for name, oi := range last {
+				if objs[oi].calls == before[oi] || !strings.HasPrefix(objs[oi].last, "changed|") {
+					c.Violation("C18:observer:not-notified", fmt.Sprintf("after %v, an edit and a reload: observer%d, the one registered last under %q, was not notified of the change (calls %d -> %d, last saw %q)", desc, oi, name, before[oi], objs[oi].calls, objs[oi].last),
+						map[string]interface{}{"engine": "E2", "history": desc})
+					return
+				}
+			}
+		}
+		if len(h) == 3 {
+			return
+		}
+		for _, r := range alphabet {
+			rec(append(append([]reg{}, h...), r))
+		}
+	}
+	rec(nil)
+}
+
 func parseProps(content string) map[string]string {
 	p, err := properties.LoadString(content)
 	m := map[string]string{}
@@ -501,6 +555,7 @@ func Run(c *evid.Ctx) {
 		depth = 4
 	}
 	tracking(c, depth)
+	observers(c)
 	getters(c)
 	writeBack(c)
 	crashImages(c)
